@@ -114,6 +114,16 @@ func x2Configs(prop, tier string) []*X2Config {
 				res = append(res, c)
 			}
 		}
+		if prop == "C05" {
+			// reloads of the queue limit alone, under both strategies (a limit lowered to 0 while a job waits)
+			for _, repl := range []bool{false, true} {
+				for _, q := range [][2]int{{1, 0}, {2, 1}, {0, 1}} {
+					a := PipeCfg{Conc: 1, QL: q[0], Replace: repl, Graph: graphOne}
+					b := PipeCfg{Conc: 1, QL: q[1], Replace: repl, Graph: graphOne}
+					res = append(res, &X2Config{Name: fmt.Sprintf("C05/reload-queue-limit-%d-to-%d/replace=%v", q[0], q[1], repl), Cfgs: []PipeCfg{a, b}, Depth: depth(6, 7), Cancel: true, Reload: true, Symmetry: true, Props: props("C05")})
+				}
+			}
+		}
 		if prop == "C01" || prop == "C03" || prop == "C05" || prop == "C06" {
 			// a reload that changes several aspects at once: append -> replace, concurrency 1 -> 2, delay added
 			a := PipeCfg{Conc: 1, QL: -1, Graph: graphOne}
